@@ -461,7 +461,7 @@ class ConstGroupVerifier:
 
     def increment(self, key, value):
         old_value = self.const_values.get(key)
-        if old_value is None:
+        if key not in self.const_values:
             self.const_values[key] = value
         elif old_value != value:
             raise RbqlRuntimeError('Invalid aggregate expression: non-constant values in output column {}. E.g. "{}" and "{}"'.format(self.output_index + 1, old_value, value)) # UT JSON
